@@ -42,6 +42,16 @@ def main(argv):
     pid = a.pid.upper()
     tier = "thorough" if a.tier.startswith("t") else "quick"
     ctx = Ctx(pid, tier, seed)
+    # /repo is read by path (harness, translators, binary build): hold a shared lock while a check runs so that
+    # tools/seedcheck.sh (exclusive lock) never has a seeded change applied underneath a running check
+    if not os.environ.get("VERIF_REPO_LOCK_HELD"):
+        try:
+            import fcntl
+            _lk = open("/tmp/gold-verif-repo.lock", "a")
+            fcntl.flock(_lk, fcntl.LOCK_SH)
+            ctx._repo_lock = _lk
+        except Exception:
+            pass
     mod = importlib.import_module("checks." + pid.lower())
     t0 = time.time()
     violations = 0
